@@ -11,6 +11,8 @@ from symx.obligation import Obligation
 from props.engine_common import engine_rig
 
 METHOD = ["Mark: M1", "Wait: 1s", "Mark: M2", "Mark: M3"]
+# a method whose main flow passes through a Block that ends while injected code may still be running
+METHOD_BLOCK = ["Mark: M1", "Block: B", "    Mark: M2", "    Mark: M3", "    End block", "Mark: M4", "Mark: M5"]
 SNIPPETS = {
     "mark": ("Mark: I1", ["I1"], False),
     "uod": ("CmdA", [], True),
@@ -23,6 +25,7 @@ N = 26
 
 def _run(sym, snippet, inj_tick, window, edit_tick, durations):
     import openpectus.protocol.models as Mdl
+    METHOD = METHOD_BLOCK if sym.shard.get("method") == "block" else globals()["METHOD"]
     ids = [f"id_{i + 1}" for i in range(len(METHOD))]
     obs = {"mark_ticks": {}, "states": [], "uod": None, "errors": None, "inject_error": None, "edit_outcome": None}
     with engine_rig(sym, None, durations=durations) as rig:
@@ -165,6 +168,8 @@ def _shards(tier):
             out.append({"snippet": s, "window": "Pause"})
             out.append({"snippet": s, "window": "Hold"})
         out.append({"snippet": s, "edit": True})
+        if tier != "quick" or s in ("two_marks_uod", "wait_mark"):
+            out.append({"snippet": s, "method": "block"})
     return out
 
 
@@ -184,7 +189,7 @@ OBLIGATIONS = [_TWO, Obligation(
              "openpectus.lang.exec.pinterpreter:PInterpreter.visit_InjectedNode", "openpectus.lang.exec.tracking:Tracking.create_injected_node_records",
              "openpectus.engine.method_manager:MethodManager._create_interpreter_from_state", "openpectus.engine.command_manager:CommandManager._execute_uod_command"],
     symbolic="injection tick (1..12), UOD command duration (1..5), start tick of a 3-tick Pause/Hold window (1..12), tick of a live edit after the injection (..16)",
-    bounds={"quick": "5 snippets (Mark; UOD command; Wait+Mark; Block..End block; Mark+UOD+Mark) x {plain, Pause window, Hold window (3 snippets), followed by an append edit}, 26 ticks",
+    bounds={"quick": "5 snippets (Mark; UOD command; Wait+Mark; Block..End block; Mark+UOD+Mark) x {plain, Pause window, Hold window (3 snippets), followed by an append edit}, 26 ticks; 2 snippets injected into a method whose main flow passes through a Block that ends",
             "thorough": "windows for all snippets"},
     assumptions=["one injection per run; the live edit appends one line", "tick interval fixed; fake hardware; log statements removed at import"],
 )]
